@@ -51,6 +51,7 @@ class Track:
         self.ali = {}        # slot -> (source: -1 decoder-owned | k retained slot, valid)
         self.aln = set()
         self.everutt = False
+        self.alias = {}      # believed lattice identity -> class of identities that may be the same real object
         self.dagobj = None   # identity of the decoder's current lattice object (None = none)
         self.dagfresh = False
         self.lat = {}        # slot -> lattice object identity (user references)
@@ -64,19 +65,30 @@ class Track:
     def eff_gram(self):
         return self.cfg["jsgf"] if self.cfg["jsgf"] != "none" else self.cfg["fsg"]
 
-    def kill_obj(self, obj):
-        """node / link iterators into a lattice object that was released or pruned"""
+    def same_obj(self, a, b):
+        """may the two believed identities be one real object?  The generator does not know whether
+        `decoder_lattice` really rebuilt the lattice when it only suspects that frames were searched (a block may
+        search no frame): the new identity is then an ALIAS of the old one."""
+        return a is not None and b is not None and self.alias.get(a, a) == self.alias.get(b, b)
+
+    def kill_obj(self, obj, pruned=False):
+        """node / link iterators into a lattice object that was released (exact identity: if it is in fact still
+        alive under an alias, believing it dead is the safe side) or pruned (every alias: nodes are gone)"""
         for d in (self.ln, self.ll):
             for k in d:
-                if d[k][0] == obj:
+                if d[k][0] == obj or (pruned and self.same_obj(d[k][0], obj)):
                     d[k][1] = False
 
     def lattice_call(self, counter):
         """decoder_lattice: reuse when it covers the current frames, else the old object is released"""
         if not (self.dagobj is not None and self.dagfresh):
+            old = self.dagobj
             self.invalidate("dag")
             counter[0] += 1
             self.dagobj, self.dagfresh = counter[0], True
+            if old is not None:
+                # same search, no certain rebuild: the implementation may have returned the old object
+                self.alias[self.dagobj] = self.alias.get(old, old)
         return self.dagobj
 
     def invalidate(self, what):
@@ -239,6 +251,10 @@ def gen_history(rng, stats, maxcalls=40, profile=None):
             a += " fsgusefiller no"
         if rng.chance(0.06):
             a += " bestpath yes"
+        if EXTENDED and g != "null" and rng.chance(0.08):
+            # a dictionary file with refused lines (alternate of a missing base, duplicate word, unknown phone): the
+            # loader reports and ignores them
+            a = a.replace(" dict tests/data/turtle.dic", "") + " sdict refused-lines.dic"
         if EXTENDED and rng.chance(0.2):
             a += " loglevel ERROR"      # error messages are really written (to stderr or to the decoder's log file)
         return a
@@ -488,7 +504,10 @@ def gen_history(rng, stats, maxcalls=40, profile=None):
                 t.invalidate("result")
         elif c in ("addword0", "addword1"):
             upd = 1 if c == "addword1" else 0
-            wk = rng.choice(["new%d" % rng.below(4), "known", "alt", "empty", "paren", "long", "filler"])
+            # new word, duplicate, existing alternate, new alternate of an existing base, alternate of a MISSING base,
+            # alternate of a word added earlier (or not), empty word, lone parenthesis, very long word, filler
+            wk = rng.choice(["new%d" % rng.below(4), "new%d" % rng.below(4), "known", "alt", "altnew", "altmissing", "altmissing",
+                             "altofnew%d" % rng.below(4), "empty", "paren", "long", "filler"])
             pk = rng.choice(["ok", "ok", "one", "sil", "spaces", "empty", "blank", "bad", "long"])
             emit(f"addword {wk} {pk} {upd}", "addword")
             if upd:
@@ -636,9 +655,9 @@ def gen_history(rng, stats, maxcalls=40, profile=None):
                 emit(f"lattrav {src} {rng.choice(['fwd', 'rev'])} {rng.choice([0, 1, 2, 5, 1000, 1000])}", "lattrav")
             elif c == "latprune":
                 emit(f"latprune {src} {rng.choice(['all', 'none', 'half', 'small', 'small'])}", "latprune")
-                # nodes and links are deleted: every iterator into this object dies
-                t.kill_obj(obj)
-                if obj == t.dagobj:
+                # nodes and links are deleted: every iterator into this object (under any alias) dies
+                t.kill_obj(obj, pruned=True)
+                if t.same_obj(obj, t.dagobj):
                     for k in t.hyp:
                         t.hyp[k] = False
                     for k in t.seg:
@@ -1099,6 +1118,9 @@ def prepare_scratch(dirpath):
     open(os.path.join(SCRATCH_DIR, "mllr-id.txt"), "w").write(text)
     open(os.path.join(SCRATCH_DIR, "mllr-short.txt"), "w").write(text[:len(text) // 3])
     open(os.path.join(SCRATCH_DIR, "mllr-bad.txt"), "w").write("this is not an MLLR transform\n")
+    base = (vlib.REPO / "tests" / "data" / "turtle.dic").read_text()
+    open(os.path.join(SCRATCH_DIR, "refused-lines.dic"), "w").write(
+        base + "zzyzxqq(2) Z IH K S\nforward F AO R W ER D\nqqbadphone Q QQ\nhello(9) HH AH L OW\n")
 
 
 def pin_harness(dirpath, pool=False):
@@ -1265,6 +1287,29 @@ def judge(c, binp, ops, label, stats, shrink=True):
     return False
 
 
+def truncate_at_oop(binp, ops, stats, max_rounds=4):
+    """A generated history whose transcript contains an out-of-protocol call (the generator's beliefs about the
+    implementation's data-dependent outcomes were wrong) says nothing about the property from that call on.  It is
+    cut before that call and replayed; returns (ops, rc, transcript, stderr, divergences, classes).  Only counted,
+    never an alarm: an alarm needs the IMPLEMENTATION to do something wrong inside the protocol."""
+    for _ in range(max_rounds):
+        rc, tr, err = run_history(binp, ops)
+        div, classes = compare(tr)
+        if not (div and div[0][0].startswith("out-of-protocol")):
+            return ops, rc, tr, err, div, classes
+        cut = div[0][1]                      # index in the transcript = index in ops (one entry per op, in order)
+        stats["generator_artefacts_truncated"] = stats.get("generator_artefacts_truncated", 0) + 1
+        key = div[0][2].split()[0] if not div[0][2].startswith("@") else div[0][2].split()[1]
+        stats.setdefault("generator_artefact_calls", {})
+        stats["generator_artefact_calls"][key] = stats["generator_artefact_calls"].get(key, 0) + 1
+        if cut >= len(ops):
+            # the out-of-protocol call is one of the closing calls issued by the harness itself (cannot happen: they
+            # only free); keep the alarm path for that
+            return ops, rc, tr, err, div, classes
+        ops = ops[:cut]
+    return ops, rc, tr, err, div, classes
+
+
 def new_stats():
     return {"profiles": {}, "calls": {}, "blocks": {}, "classes": {}, "ooo": {}, "returns": {}, "failures": {},
             "calls_executed": 0, "skipped_calls": 0}
@@ -1316,7 +1361,14 @@ def check(c):
     workers = 6
 
     def quick(i):
-        rc, tr, err = run_history(binp_pool if on_pool[i] else binp, hs[i])
+        b = binp_pool if on_pool[i] else binp
+        rc, tr, err = run_history(b, hs[i])
+        try:
+            d0, _ = compare(tr)
+        except RuntimeError:
+            d0 = []
+        if d0 and d0[0][0].startswith("out-of-protocol"):
+            hs[i], rc, tr, err, _, _ = truncate_at_oop(b, hs[i], stats)
         return i, rc, tr, err
     bad, distinct, groups = [], set(), {}
     with cf.ThreadPoolExecutor(workers) as ex:
@@ -1341,6 +1393,9 @@ def check(c):
                     if ret and not ret.startswith("skip"):
                         key = call.split()[0] + ":" + canon_ret(ret)
                         stats["returns"][key] = stats["returns"].get(key, 0) + 1
+            elif div and div[0][0].startswith("out-of-protocol"):
+                # still out-of-protocol after cutting several times: dropped, counted, no alarm
+                stats["generator_artefacts_dropped"] = stats.get("generator_artefacts_dropped", 0) + 1
             else:
                 bad.append(i)
                 if kind is not None:
@@ -1375,6 +1430,9 @@ def check(c):
                   "listed_out_of_order_calls_executed": stats["ooo"],
                   "return_classes_observed": stats["returns"], "failure_classes": stats["failures"],
                   "histories_on_passthrough_pool_flavour": stats.get("histories_on_passthrough_pool", 0),
+                  "generated_histories_cut_before_an_out_of_protocol_call": stats.get("generator_artefacts_truncated", 0),
+                  "out_of_protocol_generator_artefacts_by_call": stats.get("generator_artefact_calls", {}),
+                  "generated_histories_dropped_as_generator_artefacts": stats.get("generator_artefacts_dropped", 0),
                   "failing_histories": len(bad), "corpus_cases": ncorp})
 
 
